@@ -39,9 +39,9 @@ example : RunWfC Ex (init 2 1) hist ∧ Wf Ex (hist.foldl (step Ex) (init 2 1)) 
 
 /-- `QuorumByIndices` for an environment whose test is NOT `quorumIdx` itself: per-entity thresholds (entity 20 needs
 one index, the others two) satisfy it for `k = 2` because the count of distinct indices is monotone in the threshold -/
-def Ex' : Env := { Ex with quorum := fun e rows => quorumIdx (if e = 20 then 1 else 2) rows }
+def ExQ : Env := { Ex with quorum := fun e rows => quorumIdx (if e = 20 then 1 else 2) rows }
 
-theorem Ex'_quorum : QuorumByIndices Ex' 2 := by
+theorem ExQ_quorum : QuorumByIndices ExQ 2 := by
   intro e rows h
   show quorumIdx (if e = 20 then 1 else 2) rows = true
   unfold quorumIdx at *
